@@ -19,6 +19,11 @@ theorem tree_variant_good : treeVariant = Variant.good := by decide
 /-- every `delete` on the loaded map is inside processCompleted (the model has no other) -/
 theorem no_other_delete_site : deletesElsewhere = 0 := by decide
 
+/-- The model's `cExp` action is ONE atomic region: the refCount test, Close, and the removal from
+    `loaded` cannot be separated by another action.  That is true of the tree iff the expired
+    handler keeps refMu from the test to unload() and keeps loadedMu across unload() and the delete. -/
+theorem expired_region_is_atomic : expiredAtomic = true ∧ unloadUnderLoadedMu = true := by decide
+
 /-- C01 for the tree's variant -/
 theorem tree_closed_runner_has_no_user {mr mq ds : Nat} {s : State}
     (h : Reach treeVariant (Sched.init mr mq ds) s) (r : Rid) (hr : r < s.nRunners)
